@@ -258,7 +258,8 @@ Breaking ==
          /\ types2[i].m[p].bw = 0 /\ IsScalar(types2, types2[i].m[p].t)
          /\ types2' = [types2 EXCEPT ![i].m[p].t = t]
          /\ UNCHANGED <<fns2, vars2, fresh>> /\ Log(Mut("member-type", "breaking", i, 0, p))
-  \/ pick = "enumerator-value" /\ \E i \in {i \in Live2 : types2[i].k = "enum"} : \E p \in 1..Len(types2[i].e) :
+  \* (an enumerator of the *first* program: re-valuing one that an earlier enumerator-append added is just another append)
+  \/ pick = "enumerator-value" /\ \E i \in {i \in Live2 : types2[i].k = "enum" /\ i <= Len(types)} : \E p \in 1..Len(types[i].e) :
          /\ types2' = [types2 EXCEPT ![i].e[p].v = MaxV(types2[i].e) + 5]
          /\ UNCHANGED <<fns2, vars2, fresh>> /\ Log(Mut("enumerator-value", "breaking", i, 0, p))
   \/ pick = "array-dim" /\ \E i \in {i \in Live2 : types2[i].k = "array"} :
@@ -355,6 +356,9 @@ Expect ==
        \* interfaces of program 1 that a *breaking* catalogue entry touches: directly, or through a type they reach
        brkFns |-> {fns[k].id : k \in {k \in 1..Len(fns) : \E j \in brk : muts[j].iface = fns[k].id \/ (muts[j].ty # 0 /\ muts[j].ty \in FnReach(types, fns[k]))}},
        brkVars |-> {vars[k].id : k \in {k \in 1..Len(vars) : \E j \in brk : muts[j].iface = vars[k].id \/ (muts[j].ty # 0 /\ muts[j].ty \in VarReach(types, vars[k]))}},
+       \* ... and those a *harmless* entry touches (known finding C05-uncategorized-change-beside-harmless-change)
+       hlFns |-> {fns[k].id : k \in {k \in 1..Len(fns) : \E j \in hl : muts[j].iface = fns[k].id \/ (muts[j].ty # 0 /\ muts[j].ty \in FnReach(types, fns[k]))}},
+       hlVars |-> {vars[k].id : k \in {k \in 1..Len(vars) : \E j \in hl : muts[j].iface = vars[k].id \/ (muts[j].ty # 0 /\ muts[j].ty \in VarReach(types, vars[k]))}},
        \* some mutated type is a union or sits by value inside a union (see known finding C05-same-size-change-in-union)
        inUnion |-> \E i \in MutTypes : \E u \in TRef(types2) : types2[u].k = "union" /\ i \in ByVal(types2, u) ]
 
